@@ -49,6 +49,11 @@ man = dict(
           "line + replay file), 2 inconclusive (a monitor floor was not met, a "
           "shard crashed or hit the watchdog). Repairs of genuine rig defects "
           "are the 'fix:' commits in /repo (%s); see known_findings.json and "
-          "DESIGN.md section 2.1." % ", ".join(fixes))
+          "DESIGN.md section 2.1. The worker shards of every check take "
+          "turns at four settings of the process the library runs in (plain; "
+          "root logger at DEBUG; a working directory holding decoy files; "
+          "python -O) and keep the interpreter's stock warning filters; the "
+          "setting is stored with each violation and restored by --replay "
+          "(DESIGN.md section 8)." % ", ".join(fixes))
 json.dump(man, open("/verif/MANIFEST.json", "w"), indent=1)
 print("MANIFEST: %d checks, %d not_applicable" % (len(checks), len(na)))
